@@ -1,10 +1,10 @@
 import GateryModel.C09.EdgeLemmas
-import GateryModel.C09.DrvLemmas
+import GateryModel.C09.CacheLemmas
 /-! `Inv` is preserved by every operation; reachable states satisfy it. -/
 namespace Gatery.C09
 
 theorem inv_init : Inv State.init := by
-  refine ⟨⟨⟨?_, ?_⟩, ⟨?_, ?_⟩, ⟨?_, ?_⟩, ⟨?_, ?_⟩, ?_, ?_⟩, ?_, ?_, ?_⟩ <;> simp [State.init, CAInv, DriverInv]
+  refine ⟨⟨⟨?_, ?_⟩, ⟨?_, ?_⟩, ⟨?_, ?_⟩, ⟨?_, ?_⟩, ?_, ?_, ?_⟩, ?_, ?_, ?_⟩ <;> simp [State.init, CAInv, DriverInv, CacheInv]
 
 theorem setType_spec {s s' : State} {h o : Nat} {t : CType} (hr : setOutputConnectionType s h o t = .ok s') :
     ∃ ct, s' = { s with ctype := ct } := by
@@ -29,14 +29,15 @@ theorem destroyNode_spec {s s' : State} {h : Nat} (hI : GInv s) (hr : destroyNod
   split at hr
   · cases hr
   rename_i hunb
-  obtain ⟨hE, hG, hC, hId, hA, hD⟩ := hI
+  obtain ⟨hE, hG, hC, hId, hA, hD, hK⟩ := hI
   have hns := notslot_of_unbound hD h hunb
   obtain ⟨s1, h1, hr⟩ := bind_ok.mp hr
   obtain ⟨gn, gr, rfl, hG1, _, hgr⟩ := moveToGroup_spec hG h1
   obtain ⟨s2, h2, hr⟩ := bind_ok.mp hr
-  obtain ⟨cd, ck, rfl, hC1, hmon, hck⟩ := detachRange_spec (s := { s with gnodes := gn, grp := gr }) _ hC h2
+  have hK1 := detachRange_cache (s := { s with gnodes := gn, grp := gr }) _ hK h2
+  obtain ⟨cd, ck, ca, rfl, hC1, hmon, hck⟩ := detachRange_spec (s := { s with gnodes := gn, grp := gr }) _ hC h2
   have hD1 : DriverInv s.size s.alive s.dk s.numClk ck s.nclocks s.calive s.drv := by
-    obtain ⟨cd', ck', e', hfr⟩ := detachRange_frame (s := { s with gnodes := gn, grp := gr }) _ h2
+    obtain ⟨cd', ck', ca', e', hfr⟩ := detachRange_frame (s := { s with gnodes := gn, grp := gr }) _ h2
     have hck' : ck = ck' := by injection e'
     subst hck'
     exact di_clk_other hD h hfr hns
@@ -46,13 +47,13 @@ theorem destroyNode_spec {s s' : State} {h : Nat} (hI : GInv s) (hr : destroyNod
     · left; rw [← e1]; exact e)
   obtain ⟨s3, h3, hr⟩ := bind_ok.mp hr
   obtain ⟨ip, c, ni, rfl, hE1, _, hni, _, _⟩ :=
-    resizeInputs_spec (s := { s with gnodes := gn, grp := gr, clocked := cd, clk := ck }) hE h3
+    resizeInputs_spec (s := { s with gnodes := gn, grp := gr, clocked := cd, clk := ck, cache := ca }) hE h3
   obtain ⟨s4, h4, hr⟩ := bind_ok.mp hr
   obtain ⟨ip2, c2, no, ct, rfl, hE2, _, hno, _⟩ :=
-    resizeOutputs_spec (s := { s with gnodes := gn, grp := gr, clocked := cd, clk := ck, conns := c, inp := ip, numIn := ni }) hE1 h4
+    resizeOutputs_spec (s := { s with gnodes := gn, grp := gr, clocked := cd, clk := ck, cache := ca, conns := c, inp := ip, numIn := ni }) hE1 h4
   have e := Except.ok.inj hr
   subst e
-  refine ⟨⟨free_edge hE2 h hni hno, free_group hG1 h hgr, free_clock hC1 h ?_, free_id hId h, free_ca hA1 h, free_di hD1 h hns⟩, rfl, rfl, rfl, hl⟩
+  refine ⟨⟨free_edge hE2 h hni hno, free_group hG1 h hgr, free_clock hC1 h ?_, free_id hId h, free_ca hA1 h, free_di hD1 h hns, hK1⟩, rfl, rfl, rfl, hl⟩
   intro p hp
   exact hck p (List.mem_range.mpr hp)
 
@@ -163,21 +164,22 @@ theorem prim_inv {s s' : State} (hI : Inv s) :
     (∀ h i d, connectInput s h i d = .ok s' → Inv s') ∧
     (∀ h p c, NotSlot s h → attachClock s h p c = .ok s' → Inv s') ∧
     Inv (createClock s) := by
-  obtain ⟨⟨hE, hG, hC, hId, hA, hD⟩, hO⟩ := hI
+  obtain ⟨⟨hE, hG, hC, hId, hA, hD, hK⟩, hO⟩ := hI
   refine ⟨?_, ?_, ?_, ?_, ?_⟩
   · intro sig a b c k
-    exact ⟨⟨create_edge hE a b, create_group hG, create_clock hC c, create_id hId, create_ca hA c, create_di hD k c⟩, create_order hO⟩
+    exact ⟨⟨create_edge hE a b, create_group hG, create_clock hC c, create_id hId, create_ca hA c, create_di hD k c, hK⟩, create_order hO⟩
   · intro h g hr
     obtain ⟨gn, gr, rfl, h1, _⟩ := moveToGroup_spec hG hr
-    exact ⟨⟨hE, h1, hC, hId, hA, hD⟩, hO⟩
+    exact ⟨⟨hE, h1, hC, hId, hA, hD, hK⟩, hO⟩
   · intro h i d hr
     obtain ⟨ip, c, rfl, h1, _⟩ := connect_spec hE hr
-    exact ⟨⟨h1, hG, hC, hId, hA, hD⟩, hO⟩
+    exact ⟨⟨h1, hG, hC, hId, hA, hD, hK⟩, hO⟩
   · intro h p c hns hr
     have hD1 := attachClock_di hD hns hr
-    obtain ⟨cd, ck, rfl, h1, hprov⟩ := attachClock_spec hC hr
-    exact ⟨⟨hE, hG, h1, hId, ca_mono hA hprov, hD1⟩, hO⟩
-  · exact ⟨⟨hE, hG, newclock_clock hC, hId, newclock_ca hA _, newclock_di hD⟩, hO⟩
+    have hK1 := attachClock_cache hC hK hr
+    obtain ⟨cd, ck, ca, rfl, h1, hprov⟩ := attachClock_spec hC hr
+    exact ⟨⟨hE, hG, h1, hId, ca_mono hA hprov, hD1, hK1⟩, hO⟩
+  · exact ⟨⟨hE, hG, newclock_clock hC, hId, newclock_ca hA _, newclock_di hD, newclock_cache hK⟩, hO⟩
 
 theorem cloneNode_inv {s s' : State} {src : Nat} (hI : Inv s) (hr : cloneNode s src = .ok s') : Inv s' := by
   unfold cloneNode at hr
@@ -208,8 +210,8 @@ theorem fresh_id {size : Nat} {alive : Nat → Bool} {nid : Nat → Nat} {nextId
     · rw [if_neg e1, if_neg e2] at e; exact h2 x hs ha k hk hka e
 
 theorem setFreshId_inv {s : State} (h : Nat) (hI : Inv s) : Inv (setFreshId s h) := by
-  obtain ⟨⟨hE, hG, hC, hId, hA, hD⟩, hO⟩ := hI
-  exact ⟨⟨hE, hG, hC, fresh_id hId h, hA, hD⟩, hO⟩
+  obtain ⟨⟨hE, hG, hC, hId, hA, hD, hK⟩, hO⟩ := hI
+  exact ⟨⟨hE, hG, hC, fresh_id hId h, hA, hD, hK⟩, hO⟩
 
 theorem foldRes_pres {α : Type} (P : State → Prop) (f : State → α → Res State)
     (hf : ∀ s a s', P s → f s a = .ok s' → P s') :
@@ -349,11 +351,11 @@ theorem copyReconnect_inv (b : Nat) (m : List (Nat × Nat)) (cc : Bool) (s : Sta
         exact hI0.2.1 c (by omega) hcal k hk hk0 d hd
     split at hr0
     · have hIc : Inv (createClock s0) := (prim_inv (s' := s0) hI0.1).2.2.2.2
-      obtain ⟨cd, ck, e1, _⟩ := attachClock_frame hr0
+      obtain ⟨cd, ck, ca, e1, _⟩ := attachClock_frame hr0
       refine ⟨(prim_inv (s' := s0') hIc).2.2.2.1 _ _ _ (notSlot_of_SB new hSBc he) hr0, ?_, ?_⟩
       · subst e1; exact hSBc
       · subst e1; exact hI0.2.2
-    · obtain ⟨cd, ck, e1, _⟩ := attachClock_frame hr0
+    · obtain ⟨cd, ck, ca, e1, _⟩ := attachClock_frame hr0
       refine ⟨(prim_inv hI0.1).2.2.2.1 _ _ _ (notSlot_of_SB new hI0.2.1 he) hr0, ?_, ?_⟩
       · subst e1; exact hI0.2.1
       · subst e1; exact hI0.2.2
@@ -365,7 +367,7 @@ theorem copySubnet_inv {s s' : State} {ins outs : List NodePort} {cc : Bool} (hI
   · cases hr
   simp only at hr
   obtain ⟨⟨s1, m⟩, h1, h2⟩ := bind_ok.mp hr
-  have h0 : CopyP s.size s := ⟨hI, SB_of_D hI.1.2.2.2.2.2, Nat.le_refl _⟩
+  have h0 : CopyP s.size s := ⟨hI, SB_of_D hI.1.2.2.2.2.2.1, Nat.le_refl _⟩
   obtain ⟨hI1, hm⟩ := copyScan_inv ins s.size _ _ _ _ _ _ _ h0 (by simp) h1
   simp only at h2
   have hP := foldl_setFreshId_inv s.size (sortByKey s1.nid m) s1 hI1
@@ -383,52 +385,53 @@ theorem copySubnet_inv {s s' : State} {ins outs : List NodePort} {cc : Bool} (hI
       (copyReconnect_inv s.size m cc t a t1 (hl a List.mem_cons_self) hI h3) h4
 
 theorem destroyClock_inv {s s' : State} {c : Nat} (hI : Inv s) (hr : destroyClock s c = .ok s') : Inv s' := by
-  obtain ⟨⟨hE, hG, hC, hId, hA, hD⟩, hO⟩ := hI
+  obtain ⟨⟨hE, hG, hC, hId, hA, hD, hK⟩, hO⟩ := hI
   have hD1 := destroyClock_di hC hD hr
+  have hK1 := destroyClock_cache hK hr
   unfold destroyClock at hr
   split at hr
   · cases hr
   obtain ⟨s1, h1, h2⟩ := bind_ok.mp hr
-  obtain ⟨cd, ck, rfl, hC1, hz, hmon⟩ := drainClock_spec _ hC h1
+  obtain ⟨cd, ck, ca, rfl, hC1, hz, hmon⟩ := drainClock_spec _ hC h1
   have e := Except.ok.inj h2
   subst e
   have hA1 : CAInv s.size s.alive s.numClk ck s.calive := ca_mono hA (fun x y v e => by
     rcases hmon x y with e1 | e1
     · rw [e1] at e; cases e
     · left; rw [← e1]; exact e)
-  exact ⟨⟨hE, hG, hC1, hId, killclock_ca hA1 hC1 c hz, hD1⟩, hO⟩
+  exact ⟨⟨hE, hG, hC1, hId, killclock_ca hA1 hC1 c hz, hD1, hK1⟩, hO⟩
 
 /-- every operation preserves the invariant -/
 theorem inv_step {s s' : State} (op : Op) (hI : Inv s) (hr : step s op = .ok s') : Inv s' := by
-  obtain ⟨⟨hE, hG, hC, hId, hA, hD⟩, hO⟩ := hI
+  obtain ⟨⟨hE, hG, hC, hId, hA, hD, hK⟩, hO⟩ := hI
   cases op with
   | createNode sig a b c k =>
     have e := Except.ok.inj hr
     subst e
-    exact ⟨⟨create_edge hE a b, create_group hG, create_clock hC c, create_id hId, create_ca hA c, create_di hD k c⟩, create_order hO⟩
+    exact ⟨⟨create_edge hE a b, create_group hG, create_clock hC c, create_id hId, create_ca hA c, create_di hD k c, hK⟩, create_order hO⟩
   | createGroup =>
     have e := Except.ok.inj hr
     subst e
-    exact ⟨⟨hE, newgroup_group hG, hC, hId, hA, hD⟩, hO⟩
+    exact ⟨⟨hE, newgroup_group hG, hC, hId, hA, hD, hK⟩, hO⟩
   | createClock =>
     have e := Except.ok.inj hr
     subst e
-    exact ⟨⟨hE, hG, newclock_clock hC, hId, newclock_ca hA _, newclock_di hD⟩, hO⟩
+    exact ⟨⟨hE, hG, newclock_clock hC, hId, newclock_ca hA _, newclock_di hD, newclock_cache hK⟩, hO⟩
   | connect h i d =>
     obtain ⟨ip, c, rfl, h1, _⟩ := connect_spec hE hr
-    exact ⟨⟨h1, hG, hC, hId, hA, hD⟩, hO⟩
+    exact ⟨⟨h1, hG, hC, hId, hA, hD, hK⟩, hO⟩
   | disconnect h i =>
     obtain ⟨ip, c, rfl, h1, _⟩ := disconnect_spec hE hr
-    exact ⟨⟨h1, hG, hC, hId, hA, hD⟩, hO⟩
+    exact ⟨⟨h1, hG, hC, hId, hA, hD, hK⟩, hO⟩
   | signalConnect h d =>
     obtain ⟨ip, c, ct, rfl, h1⟩ := signalConnect_spec hE hr
-    exact ⟨⟨h1, hG, hC, hId, hA, hD⟩, hO⟩
+    exact ⟨⟨h1, hG, hC, hId, hA, hD, hK⟩, hO⟩
   | resizeInputs h n =>
     obtain ⟨ip, c, ni, rfl, h1, _⟩ := resizeInputs_spec hE hr
-    exact ⟨⟨h1, hG, hC, hId, hA, hD⟩, hO⟩
+    exact ⟨⟨h1, hG, hC, hId, hA, hD, hK⟩, hO⟩
   | resizeOutputs h n =>
     obtain ⟨ip, c, no, ct, rfl, h1, _⟩ := resizeOutputs_spec hE hr
-    exact ⟨⟨h1, hG, hC, hId, hA, hD⟩, hO⟩
+    exact ⟨⟨h1, hG, hC, hId, hA, hD, hK⟩, hO⟩
   | bypass h o i =>
     simp only [step] at hr
     unfold bypassOutputToInput at hr
@@ -439,13 +442,13 @@ theorem inv_step {s s' : State} (op : Op) (hI : Inv s) (hr : step s op = .ok s')
     split at hr
     · cases hr
     obtain ⟨ip, c, rfl, h1, _⟩ := bypassLoop_spec _ hE hr
-    exact ⟨⟨h1, hG, hC, hId, hA, hD⟩, hO⟩
+    exact ⟨⟨h1, hG, hC, hId, hA, hD, hK⟩, hO⟩
   | setType h o t =>
     obtain ⟨ct, rfl⟩ := setType_spec hr
-    exact ⟨⟨hE, hG, hC, hId, hA, hD⟩, hO⟩
+    exact ⟨⟨hE, hG, hC, hId, hA, hD, hK⟩, hO⟩
   | moveToGroup h g =>
     obtain ⟨gn, gr, rfl, h1, _⟩ := moveToGroup_spec hG hr
-    exact ⟨⟨hE, h1, hC, hId, hA, hD⟩, hO⟩
+    exact ⟨⟨hE, h1, hC, hId, hA, hD, hK⟩, hO⟩
   | attachClock h p c =>
     simp only [step] at hr
     split at hr
@@ -453,8 +456,9 @@ theorem inv_step {s s' : State} (op : Op) (hI : Inv s) (hr : step s op = .ok s')
     rename_i h0
     have h0 : s.dk h = 0 := Classical.not_not.mp h0
     have hD1 := attachClock_di hD (notslot_of_dk0 hD h h0) hr
-    obtain ⟨cd, ck, rfl, h1, hprov⟩ := attachClock_spec hC hr
-    exact ⟨⟨hE, hG, h1, hId, ca_mono hA hprov, hD1⟩, hO⟩
+    have hK1 := attachClock_cache hC hK hr
+    obtain ⟨cd, ck, ca, rfl, h1, hprov⟩ := attachClock_spec hC hr
+    exact ⟨⟨hE, hG, h1, hId, ca_mono hA hprov, hD1, hK1⟩, hO⟩
   | detachClock h p =>
     simp only [step] at hr
     split at hr
@@ -462,12 +466,13 @@ theorem inv_step {s s' : State} (op : Op) (hI : Inv s) (hr : step s op = .ok s')
     rename_i h0
     have h0 : s.dk h = 0 := Classical.not_not.mp h0
     have hD1 := detachClock_di hD (notslot_of_dk0 hD h h0) hr
-    obtain ⟨cd, ck, rfl, h1, _, _, _, hmon⟩ := detachClock_spec hC hr
+    have hK1 := detachClock_cache hK hr
+    obtain ⟨cd, ck, ca, rfl, h1, _, _, _, hmon⟩ := detachClock_spec hC hr
     have hA1 : CAInv s.size s.alive s.numClk ck s.calive := ca_mono hA (fun x y v e => by
       rcases hmon x y with e1 | e1
       · rw [e1] at e; cases e
       · left; rw [← e1]; exact e)
-    exact ⟨⟨hE, hG, h1, hId, hA1, hD1⟩, hO⟩
+    exact ⟨⟨hE, hG, h1, hId, hA1, hD1, hK1⟩, hO⟩
   | addClock h c =>
     simp only [step] at hr
     split at hr
@@ -475,8 +480,9 @@ theorem inv_step {s s' : State} (op : Op) (hI : Inv s) (hr : step s op = .ok s')
     rename_i h0
     have h0 : s.dk h = 0 := Classical.not_not.mp h0
     have hD1 := addClock_di hD h0 hr
-    obtain ⟨cd, ck, nk, rfl, h1, hprov, hnk, _⟩ := addClock_spec hC hr
-    exact ⟨⟨hE, hG, h1, hId, grow_ca hA h hprov hnk, hD1⟩, hO⟩
+    have hK1 := addClock_cache hC hK hr
+    obtain ⟨cd, ck, ca, nk, rfl, h1, hprov, hnk, _⟩ := addClock_spec hC hr
+    exact ⟨⟨hE, hG, h1, hId, grow_ca hA h hprov hnk, hD1, hK1⟩, hO⟩
   | addRef h =>
     simp only [step] at hr
     unfold addRef at hr
@@ -484,7 +490,7 @@ theorem inv_step {s s' : State} (op : Op) (hI : Inv s) (hr : step s op = .ok s')
     · cases hr
     · have e := Except.ok.inj hr
       subst e
-      exact ⟨⟨hE, hG, hC, hId, hA, hD⟩, hO⟩
+      exact ⟨⟨hE, hG, hC, hId, hA, hD, hK⟩, hO⟩
   | removeRef h =>
     simp only [step] at hr
     unfold removeRef at hr
@@ -494,15 +500,19 @@ theorem inv_step {s s' : State} (op : Op) (hI : Inv s) (hr : step s op = .ok s')
       · cases hr
       · have e := Except.ok.inj hr
         subst e
-        exact ⟨⟨hE, hG, hC, hId, hA, hD⟩, hO⟩
-  | eraseNode idx => exact eraseNode_inv ⟨⟨hE, hG, hC, hId, hA, hD⟩, hO⟩ hr
-  | cullOrphanedSignals => exact cull_inv ⟨⟨hE, hG, hC, hId, hA, hD⟩, hO⟩ hr
-  | cloneNode src => exact cloneNode_inv ⟨⟨hE, hG, hC, hId, hA, hD⟩, hO⟩ hr
-  | copySubnet ins outs cc => exact copySubnet_inv ⟨⟨hE, hG, hC, hId, hA, hD⟩, hO⟩ hr
-  | destroyClock c => exact destroyClock_inv ⟨⟨hE, hG, hC, hId, hA, hD⟩, hO⟩ hr
+        exact ⟨⟨hE, hG, hC, hId, hA, hD, hK⟩, hO⟩
+  | eraseNode idx => exact eraseNode_inv ⟨⟨hE, hG, hC, hId, hA, hD, hK⟩, hO⟩ hr
+  | cullOrphanedSignals => exact cull_inv ⟨⟨hE, hG, hC, hId, hA, hD, hK⟩, hO⟩ hr
+  | cloneNode src => exact cloneNode_inv ⟨⟨hE, hG, hC, hId, hA, hD, hK⟩, hO⟩ hr
+  | copySubnet ins outs cc => exact copySubnet_inv ⟨⟨hE, hG, hC, hId, hA, hD, hK⟩, hO⟩ hr
+  | destroyClock c => exact destroyClock_inv ⟨⟨hE, hG, hC, hId, hA, hD, hK⟩, hO⟩ hr
   | setLogicDriver k c d =>
-    obtain ⟨cd, ck, dv, rfl, h1, h2, h3⟩ := setLogicDriver_spec hC hA hD hr
-    exact ⟨⟨hE, hG, h1, hId, h2, h3⟩, hO⟩
+    have hK1 := setLogicDriver_cache hC hK hr
+    obtain ⟨cd, ck, ca, dv, rfl, h1, h2, h3⟩ := setLogicDriver_spec hC hA hD hr
+    exact ⟨⟨hE, hG, h1, hId, h2, h3, hK1⟩, hO⟩
+  | getClockedNodes c =>
+    obtain ⟨hK1, ca, rfl⟩ := getClockedNodes_cache hC hK hr
+    exact ⟨⟨hE, hG, hC, hId, hA, hD, hK1⟩, hO⟩
 
 theorem inv_run (ops : List Op) : ∀ {s s' : State}, Inv s → run s ops = .ok s' → Inv s' := by
   induction ops with
